@@ -114,7 +114,7 @@ def build(spec, scratch=None, stop_at=None, tolerate_flagged=False):
     from dliswriter.logical_record.eflr_types import FileHeaderItem, FileHeaderSet
     b = Built()
     sul = spec.get('sul') or {}
-    vrl = sul.get('vrl', 8192)
+    vrl = sul.get('vrl_first', sul.get('vrl', 8192))     # 'vrl_first': the length at construction, changed afterwards
     try:
         kw = {}
         if sul.get('id') is not None:
@@ -125,6 +125,9 @@ def build(spec, scratch=None, stop_at=None, tolerate_flagged=False):
             b.df = DLISFile(storage_unit_label=so)
         else:
             b.df = DLISFile(sul_sequence_number=sul.get('seq', 1), max_record_length=vrl, **kw)
+        if 'vrl_first' in sul:
+            # the maximum record length is a plain public field of the label: the value in force at write() counts
+            b.df.storage_unit_label.max_record_length = sul.get('vrl', 8192)
     except Exception as exc:
         raise BuildError(exc, -1, 'sul')
     for i, lf in enumerate(spec['lfs']):
